@@ -45,10 +45,14 @@ Sq(x) == LET ax == IF x < 0 THEN 0 - x ELSE x
 \* has a discrete choice b ~ flip(0.25) (never moved).  The residual of site j is
 \*   r_j(q) = sinv_j * (q_j - mean_j),   log p(q) = - sum_j r_j^2 / 2 + const.
 CSite(a, pa, mu4, sinv) == [a |-> a, pa |-> pa, mu4 |-> mu4, sinv |-> sinv]
+\* `vecs`: groups of coordinates that are the elements of ONE array-valued choice (same address `a`,
+\* e.g. v ~ normal([mu_0, mu_1], 1) @ "v"): selected together or not at all; its log-density and the
+\* kinetic energy of its momentum are SUMS over the elements, i.e. over the coordinates as for scalars.
 Models == <<
-  [name |-> "n1", disc |-> 0, sites |-> << CSite("x", 0, 6, 1) >>],
-  [name |-> "n2", disc |-> 0, sites |-> << CSite("x", 0, 4, 1), CSite("y", 1, 0, 2) >>],
-  [name |-> "n3", disc |-> 1, sites |-> << CSite("x", 0, 0, 1), CSite("y", 1, 0, 1), CSite("z", 2, 0, 1) >>]
+  [name |-> "n1", disc |-> 0, vecs |-> {}, sites |-> << CSite("x", 0, 6, 1) >>],
+  [name |-> "n2", disc |-> 0, vecs |-> {}, sites |-> << CSite("x", 0, 4, 1), CSite("y", 1, 0, 2) >>],
+  [name |-> "n3", disc |-> 1, vecs |-> {}, sites |-> << CSite("x", 0, 0, 1), CSite("y", 1, 0, 1), CSite("z", 2, 0, 1) >>],
+  [name |-> "n4", disc |-> 0, vecs |-> {{1, 2}}, sites |-> << CSite("v", 0, 2, 1), CSite("v", 0, 0 - 4, 1), CSite("y", 1, 0, 1) >>]
 >>
 NM == Len(Models)
 MIdx(n) == CHOOSE i \in 1..NM : Models[i].name = n
@@ -93,7 +97,7 @@ LeapN(m, Sel, e, s, n) == IF n = 0 THEN s ELSE Bind(LeapOp(m, Sel, e, s), LAMBDA
 VARIABLES cfg, st, k, phase
 vars == <<cfg, st, k, phase>>
 
-Sels(m) == (SUBSET (1..ND(m))) \ {{}}
+Sels(m) == {S \in (SUBSET (1..ND(m))) \ {{}} : \A g \in m.vecs : g \subseteq S \/ g \cap S = {}}
 Starts(m, Sel) == {s \in [q : [1..ND(m) -> Grid], p : [1..ND(m) -> Grid]] :
                      \A j \in 1..ND(m) : j \notin Sel => (s.p[j] = 0 /\ s.q[j] = 2)}
 Scale(s) == [q |-> [j \in 1..Len(s.q) |-> Fx4(s.q[j])], p |-> [j \in 1..Len(s.p) |-> Fx4(s.p[j])]]
@@ -141,5 +145,6 @@ EnergyBounded ==
          a == TwoH(m, cfg.s0.q, cfg.s0.p) - TwoH(m, st.q, st.p)
      IN  a \in (0 - 3 * U16)..(3 * U16)
 EmitCase ==
-  (Emit /\ phase = "root") => PrintT(<<"CATALOG", ToJson([models |-> Models])>>)
+  (Emit /\ phase = "root") => PrintT(<<"CATALOG", ToJson([models |-> [i \in 1..NM |-> [name |-> Models[i].name, disc |-> Models[i].disc,
+                                                                  sites |-> Models[i].sites]]])>>)
 =============================================================================
